@@ -1,0 +1,22 @@
+//go:build verif
+
+package ioproxy
+
+// Contracts for GoVC (see /verif/DESIGN.md). Comment-only: compiles to nothing.
+// calls(x) counts the method calls GoVC sees on the opaque value x (here: Close) and the calls of a
+// function value; spawned(f) counts goroutines started with f. Byte transport ("every byte in order")
+// is io.CopyBuffer's contract and is assumed, not proved. A function value and a stream are different
+// objects (cb != s1, cb != s2): GoVC keeps all reference-like values in one sort, so this is stated.
+//
+//@ func proxyTo
+//@   props C20
+//@   requires s1 != nil && s2 != nil && cb != s1 && cb != s2
+//@   modifies ghost:calls, time, alloc, elems(byte)
+//@   ensures closeboth: s1 != s2 ==> calls(s1) == old(calls(s1)) + 1 && calls(s2) == old(calls(s2)) + 1
+//@   ensures callback: cb != nil ==> calls(cb) == old(calls(cb)) + 1
+//
+//@ func ProxyStreams
+//@   props C20
+//@   requires s1 != nil && s2 != nil && cb != s1 && cb != s2
+//@   modifies ghost:calls
+//@   ensures two: spawned(proxyTo) == old(spawned(proxyTo)) + 2
